@@ -16,21 +16,31 @@ def par_record(ref, cs, cl, cg, Tm20, Tb20, Sfus20, Svap20, S0_20, lock='none'):
                 Hfus400=Sfus20 * Tm20, Hvap400=Svap20 * Tb20, S0_20=S0_20)
 
 
-def make_chemical(p, ID):
-    key = (ID,) + tuple(sorted(p.items()))
+def make_chemical(p, ID, via='same'):
+    """via (phase-locked chemicals only): 'same' - built with the locked phase as reference phase and locked in place;
+    'inplace_other' / 'copy_other' - built with ANOTHER reference phase, then locked in place / through at_state(copy=True)"""
+    locked = p.get('lock', 'none') != 'none'
+    if not locked:
+        via = 'same'
+    key = (ID, via) + tuple(sorted(p.items()))
     if key in _cache:
         return _cache[key]
     Tm, Tb = p['Tm20'] / 20., p['Tb20'] / 20.
     Hfus, Hvap = p['Hfus400'] / 400., p['Hvap400'] / 400.
-    ch = tmo.Chemical.blank(ID, phase_ref=p['ref'], MW=100., Tm=Tm, Tb=Tb, Hfus=Hfus, Sfus=Hfus / Tm, Tc=2000., Pc=5e6, omega=0.3,
+    ref = p['ref'] if via == 'same' else ('l' if p['lock'] != 'l' else 'g')
+    ch = tmo.Chemical.blank(ID, phase_ref=ref, MW=100., Tm=Tm, Tb=Tb, Hfus=Hfus, Sfus=Hfus / Tm, Tc=2000., Pc=5e6, omega=0.3,
                             S0=p['S0_20'] / 20., Hf=0., free_energies=False)
     for ph, c in (('s', p['cs']), ('l', p['cl']), ('g', p['cg'])):
         getattr(ch.Cn, ph).add_method(f=lambda T, c=c: 2. * c * T, f_int=lambda T1, T2, c=c: c * (T2 * T2 - T1 * T1),
                                       f_int_over_T=lambda T1, T2, c=c: 2. * c * (T2 - T1), Tmin=1., Tmax=5000.)
     ch.Hvap.add_method(f=lambda T, Hvap=Hvap: Hvap, Tmin=1., Tmax=5000.)
     ch.reset_free_energies()
-    if p.get('lock', 'none') != 'none':
-        ch.at_state(p['lock'])       # phase-locked: Chemical.at_state re-runs _init_energies through its single-phase branch
+    if locked:
+        # phase-locked: Chemical.at_state re-runs _init_energies through its single-phase branch
+        if via == 'copy_other':
+            ch = ch.at_state(p['lock'], copy=True)
+        else:
+            ch.at_state(p['lock'])
     _cache[key] = ch
     return ch
 
@@ -53,10 +63,10 @@ def R_gas():
 
 
 class World:
-    def __init__(self, par, mix):
+    def __init__(self, par, mix, via='same'):
         self.par, self.mix = par, mix
-        self.c1 = make_chemical(par, 'Syn1')
-        self.c2 = make_chemical(mix, 'Syn2')
+        self.c1 = make_chemical(par, 'Syn1', via)
+        self.c2 = make_chemical(mix, 'Syn2', via)
         self._thermo = None
 
     def project(self):
@@ -78,13 +88,14 @@ class World:
         except Exception as e:
             exc = type(e).__name__
             extra = dict(msg=str(e)[:200])
-        obs = dict(exc=exc, H400=0, S20=0, Sg20=0, Cn20=0, Sres20=0, dSmix_negative=False)
+        obs = dict(exc=exc, H400=0, S20=0, Sg20=0, Cn20=0, Sres20=0, Slib20=0, dSmix_negative=False,
+                   refH=0, refS=0, jHvap=0, jSvap=0, jHfus=0, jSfus=0, press=0, pressL=0, dH=0, dS=0)
         obs.update(extra)
         return obs
 
     def _apply(self, op, a):
-        T = a['T20'] / 20.
-        ph = a['ph']
+        T = a.get('T20', 0) / 20.
+        ph = a.get('ph')
         if op == 'eval':
             P = P_REF * 2 ** a['k']
             ch = self.c1
@@ -97,19 +108,88 @@ class World:
         if op == 'mix':
             th = self.thermo()
             n1, n2 = float(a['n1']), float(a['n2'])
-            mol = th.chemicals.kwarray(dict(Syn1=n1, Syn2=n2))
+            k = 2. ** a.get('sc', 0)       # amounts scaled by a power of two (exact): the mixture functions are extensive
+            mol = th.chemicals.kwarray(dict(Syn1=n1, Syn2=n2)) * k
             P = P_REF
-            H = th.mixture.H(ph, mol, T, P)
-            Cn = th.mixture.Cn(ph, mol, T, P)
-            S = th.mixture.S(ph, mol, T, P)
+            H = th.mixture.H(ph, mol, T, P) / k
+            Cn = th.mixture.Cn(ph, mol, T, P) / k
+            S = th.mixture.S(ph, mol, T, P) / k
             R = R_gas()
             tot = n1 + n2
             mixterm = -R * sum(n * math.log(n / tot) for n in (n1, n2) if n > 0)
+            libterm = sum(n * math.log(n / tot) for n in (n1, n2) if n > 0)       # the term the library adds (recorded finding)
             # mixing two streams at equal T, P never lowers entropy
             s1 = tmo.Stream(None, Syn1=n1, T=T, P=P, phase=ph, thermo=th) if n1 else None
             s2 = tmo.Stream(None, Syn2=n2, T=T, P=P, phase=ph, thermo=th) if n2 else None
             parts = sum(s.S for s in (s1, s2) if s is not None)
             sm = tmo.Stream(None, Syn1=n1, Syn2=n2, T=T, P=P, phase=ph, thermo=th)
             neg = bool(sm.S < parts - 1e-9 * max(1., abs(parts)))
-            return dict(H400=fx(H, 400), Cn20=fx(Cn, 20), Sres20=fx(S - mixterm, 20), dSmix_negative=neg)
+            return dict(H400=fx(H, 400), Cn20=fx(Cn, 20), Sres20=fx(S - mixterm, 20), Slib20=fx(S - libterm, 20), dSmix_negative=neg)
+        if op == 'xmix':
+            # multi-phase forms: rows = [[phase label, n1, n2] ...] (labels s, l, g, S, L)
+            th = self.thermo()
+            R = R_gas()
+            pm = [(r[0], th.chemicals.kwarray(dict(Syn1=float(r[1]), Syn2=float(r[2])))) for r in a['rows']]
+            H = th.mixture.xH(pm, T, P_REF)
+            Cn = th.mixture.xCn(pm, T, P_REF)
+            S = th.mixture.xS(pm, T, P_REF)
+            mixterm = libterm = 0.
+            for r in a['rows']:
+                tot = float(r[1] + r[2])
+                mixterm += -R * sum(n * math.log(n / tot) for n in (float(r[1]), float(r[2])) if n > 0)
+                libterm += sum(n * math.log(n / tot) for n in (float(r[1]), float(r[2])) if n > 0)
+            return dict(H400=fx(H, 400), Cn20=fx(Cn, 20), Sres20=fx(S - mixterm, 20), Slib20=fx(S - libterm, 20))
+        if op == 'db':
+            return db_eval(a['chem'], a['ref'], a.get('lock', 'none'))
         raise KeyError(op)
+
+
+# ---- chemicals of the bundled database (measured identities; deviations in ppm) -----------------------------------
+DB_CHEMS = ['Water', 'Ethanol', 'Methanol', 'Benzene', 'Hexane', 'Acetone', 'Toluene', 'Octane']
+_db = {}
+
+
+def ppm(x, scale):
+    v = abs(float(x)) / max(abs(float(scale)), 1e-300) * 1e6
+    return int(min(v, 2 ** 30)) if v == v else 2 ** 30
+
+
+def db_eval(ID, ref, lock='none'):
+    key = (ID, ref, lock)
+    if key not in _db:
+        ch = tmo.Chemical(ID, phase_ref=ref, cache=False)
+        if lock != 'none':
+            ch = ch.at_state(lock, copy=True) if lock.endswith('c') else (ch.at_state(lock) or ch)
+        _db[key] = ch
+    ch = _db[key]
+    P = P_REF
+    Tm, Tb, Tr = float(ch.Tm), float(ch.Tb), 298.15
+    R = R_gas()
+    out = {}
+    H = lambda ph, T, P=P: float(ch.H(ph, T, P))
+    S = lambda ph, T, P=P: float(ch.S(ph, T, P))
+    Hvap = float(ch.Hvap(Tb))
+    Hfus = float(ch.Hfus)
+    hs = max(abs(Hvap), 1.)
+    out['refH'] = ppm(H(ref, Tr), hs)
+    out['refS'] = ppm(S(ref, Tr) - float(ch.S0), max(abs(float(ch.S0)), 10.))
+    out['jHvap'] = ppm(H('g', Tb) - H('l', Tb) - Hvap, hs)
+    out['jSvap'] = ppm(S('g', Tb) - S('l', Tb) - Hvap / Tb, hs / Tb)
+    out['jHfus'] = ppm(H('l', Tm) - H('s', Tm) - Hfus, max(abs(Hfus), 1.))
+    out['jSfus'] = ppm(S('l', Tm) - S('s', Tm) - Hfus / Tm, max(abs(Hfus), 1.) / Tm)
+    out['press'] = ppm(S('g', Tb + 20., 2 * P) - S('g', Tb + 20., P) + R * math.log(2.), R)
+    out['pressL'] = ppm(S('l', (Tm + Tb) / 2., 2 * P) - S('l', (Tm + Tb) / 2., P), R)
+    # temperature derivatives against Cn and Cn / T over a 20 K interval (Simpson quadrature of the heat capacity)
+    dH = dS = 0
+    for ph, T1 in (('s', Tm - 30.), ('l', (Tm + Tb) / 2. - 10.), ('g', Tb + 10.)):
+        T2 = T1 + 20.
+        n = 40
+        xs = [T1 + (T2 - T1) * i / n for i in range(n + 1)]
+        w = [1 if i in (0, n) else (4 if i % 2 else 2) for i in range(n + 1)]
+        cn = [float(ch.Cn(ph, x)) for x in xs]
+        qH = sum(wi * c for wi, c in zip(w, cn)) * (T2 - T1) / n / 3.
+        qS = sum(wi * c / x for wi, c, x in zip(w, cn, xs)) * (T2 - T1) / n / 3.
+        dH = max(dH, ppm(H(ph, T2) - H(ph, T1) - qH, qH))
+        dS = max(dS, ppm(S(ph, T2) - S(ph, T1) - qS, qS))
+    out['dH'], out['dS'] = dH, dS
+    return out
